@@ -40,9 +40,19 @@ func builtinNewFunctionNative(rt *runtime, argumentList []Value) *object {
 		body = argumentList[count-1].string()
 	}
 
+	// 15.3.2.1: the parameters must be a FormalParameterList on their own (a comment
+	// opened there must not swallow the wrapper) ...
+	_, err := parser.ParseFunction(parameterList, "")
+	rt.parseThrow(err) // Will panic/throw appropriately
+
 	// FIXME
 	function, err := parser.ParseFunction(parameterList, body)
 	rt.parseThrow(err) // Will panic/throw appropriately
+	// ... and the body a FunctionBody on its own: the function parsed from the
+	// wrapper must end where the wrapper ends (a body cannot close it early).
+	if wrapped := "function(" + parameterList + ") {\n" + body + "\n}"; int(function.Idx1()-function.Idx0()) != len(wrapped) {
+		panic(rt.panicSyntaxError("Unexpected token }"))
+	}
 	cmpl := compiler{}
 	cmplFunction := cmpl.parseExpression(function)
 
